@@ -52,7 +52,8 @@ class C16(object):
     assumptions = ['series are non-empty when time-zero suppression is on', 'cutoffs are non-negative']
     required_counters = ('get.judged', 'get.series_with_tiny_magnitudes', 'other_holder_built_between_reads', 'get.no_cutoff_series_longer_than_model_horizon', 'get.suppressed', 'get.mutated_return', 'csv.judged', 'csv.default_format', 'basesolver.judged', 'get_missing.judged',
                          'insitu.gettimeseries.post_evaluated',
-                         'series_stored_by_the_user_between_renderings')
+                         'series_stored_by_the_user_between_renderings',
+                         'series_renamed_by_the_user_between_renderings')
 
     def n_cases(self, tier):
         return (120 if tier == 'quick' else 12000) + 1
@@ -64,7 +65,11 @@ class C16(object):
             # renderings made before must not decide where it appears
             case['history'] += [{'op': 'csv', 'fmt': '%.5g'}, {'op': 'holder_csv', 'group': 'main', 'fmt': None},
                                 {'op': 'store_derived', 'name': 'AAA_user'}, {'op': 'csv', 'fmt': '%.5g'},
-                                {'op': 'store_derived', 'name': 'a_0_user'}, {'op': 'holder_csv', 'group': 'main', 'fmt': '%r'}]
+                                {'op': 'store_derived', 'name': 'a_0_user'}, {'op': 'holder_csv', 'group': 'main', 'fmt': '%r'},
+                                # ... and renames a stored series before an export (same number of series, other names)
+                                {'op': 'rename_series', 'to': 'GDP_renamed'}, {'op': 'csv', 'fmt': '%.5g'},
+                                {'op': 'rename_series', 'to': 'zz_last'}, {'op': 'holder_csv', 'group': 'main', 'fmt': None},
+                                {'op': 'csv', 'fmt': '%r'}]
         return case
 
     def _make_case(self, rng, idx, tier):
@@ -151,6 +156,13 @@ class C16(object):
                 solver.TimeSeries[op['name']] = [0.5 * i_ + 1.0 for i_ in range(ln_)]
                 rendered.clear()
                 rec.count('series_stored_by_the_user_between_renderings')
+                continue
+            if op['op'] == 'rename_series':
+                cands = [n_ for n_ in sorted(solver.TimeSeries.keys()) if n_ not in ('k', 't', 'iteration') and n_ != op['to']]
+                if cands and op['to'] not in solver.TimeSeries:
+                    solver.TimeSeries[op['to']] = solver.TimeSeries.pop(cands[len(cands) // 2])
+                    rendered.clear()
+                    rec.count('series_renamed_by_the_user_between_renderings')
                 continue
             if op['op'] == 'other_holder':
                 names = sorted(snap['main'].keys())
